@@ -409,7 +409,7 @@ func main() {
 	// large universe, arbitrary field bytes
 	nr := run.N(60000, 1000000)
 	rng := run.Rand(99)
-	alphabet := []string{"", "a", "b", "repository", "registry", "catalog", "*", "pull", "push", "x:y", "a,b", " ", "p q", "\x00", "é", "delete", "A", "pulls", "pus", "pull2", "pul", "pusha"}
+	alphabet := []string{"", "a", "b", "repository", "registry", "catalog", "*", "pull", "push", "x:y", "a,b", " ", "p q", "\x00", "é", "delete", "A", "pulls", "pus", "pull2", "pul", "pusha", "PULL", "Pull", "pusH", "PUSH"}
 	randRS := func() RS {
 		f := func() string { return alphabet[rng.IntN(len(alphabet))] }
 		switch rng.IntN(6) {
